@@ -126,15 +126,17 @@ func (s *DDSketch) AddWithCount(value, count float64) error {
 		return ErrNegativeCount
 	}
 
+	// The range of the values that can be indexed is checked first: it may be
+	// empty (minimum above the maximum) for extreme mapping parameters.
+	if value > s.MaxIndexableValue() {
+		return ErrUntrackableTooHigh
+	} else if value < -s.MaxIndexableValue() {
+		return ErrUntrackableTooLow
+	}
+
 	if value > s.MinIndexableValue() {
-		if value > s.MaxIndexableValue() {
-			return ErrUntrackableTooHigh
-		}
 		s.positiveValueStore.AddWithCount(s.Index(value), count)
 	} else if value < -s.MinIndexableValue() {
-		if value < -s.MaxIndexableValue() {
-			return ErrUntrackableTooLow
-		}
 		s.negativeValueStore.AddWithCount(s.Index(-value), count)
 	} else if math.IsNaN(value) {
 		return ErrUntrackableNaN
